@@ -556,3 +556,183 @@ pub fn proof_complete(a: &Args) -> Report {
   rep.traces = 1;
   rep
 }
+
+// ---------------------------------------------------------------------------
+// C13 against a MALICIOUS SERVER: forged proofs for false statements.
+//
+// The ideal-DLEQ model (PPOPRF.tla `Verify`) says a proof is accepted only for the statement it was
+// honestly issued for.  Substituting honest values (dleq-replay) cannot distinguish a sound proof
+// system from one that has lost a binding which only a prover who knows the key can exploit.  Here
+// the harness plays that prover: it chooses its own keys, publishes a well-formed public key, and
+// for a FALSE statement (an output that is not the evaluation of the request under the committed
+// key) builds proofs under the assumption that one commitment is missing from the challenge.  The
+// transcript layout is mirrored from the library; a positive control (an honest proof built with the
+// mirrored transcript must verify) guards against the mirror being out of date.
+
+fn strobe_hash64(input: &[u8], label: &str) -> [u8; 64] {
+  use strobe_rs::{SecParam, Strobe};
+  let mut t = Strobe::new(label.as_bytes(), SecParam::B128);
+  t.key(input, false);
+  let mut out = [0u8; 64];
+  t.meta_ad(&(64u32).to_le_bytes(), false);
+  t.prf(&mut out, false);
+  out
+}
+fn h2s(input: &[u8], label: &str) -> Scalar {
+  Scalar::from_bytes_mod_order_wide(&strobe_hash64(input, label))
+}
+fn lp(out: &mut Vec<u8>, b: &[u8]) {
+  out.extend((b.len() as u16).to_be_bytes());
+  out.extend(b);
+}
+type RP = curve25519_dalek::ristretto::RistrettoPoint;
+fn composites(pk: &RP, c: &RP, d: &RP) -> (RP, RP) {
+  let ctx = format!("{}-{}-{}", "PPOPRFv1", 0x03, "ristretto255-strobe");
+  let mut st = Vec::new();
+  lp(&mut st, pk.compress().as_bytes());
+  lp(&mut st, ctx.as_bytes());
+  let seed = strobe_hash64(&st, "Seed");
+  let mut ct = Vec::new();
+  lp(&mut ct, &seed);
+  ct.extend((0u16).to_be_bytes());
+  lp(&mut ct, c.compress().as_bytes());
+  lp(&mut ct, d.compress().as_bytes());
+  let di = h2s(&ct, "Composite");
+  (di * c, di * d)
+}
+fn challenge(parts: &[&RP]) -> Scalar {
+  let mut t = Vec::new();
+  for p in parts {
+    lp(&mut t, p.compress().as_bytes());
+  }
+  h2s(&t, "Challenge")
+}
+
+/// `vh dleq-forge --seed S --n N` (C13)
+pub fn dleq_forge(a: &Args) -> Report {
+  let mut rep = Report::new("dleq-forge");
+  let n = a.u64("n", 6);
+  let seed = a.u64("seed", 1);
+  let mut rng = rng_from(seed, 1317);
+  let g = RISTRETTO_BASEPOINT_POINT;
+  let rs = |rng: &mut rand_chacha::ChaCha8Rng| -> Scalar {
+    let mut b = [0u8; 64];
+    rng.fill(&mut b);
+    Scalar::from_bytes_mod_order_wide(&b)
+  };
+  let mut control_ok = 0u64;
+  for i in 0..n {
+    // the malicious server's keys and its (well-formed) public key for tags 3 and 4
+    let k0 = rs(&mut rng);
+    let (ts3, ts4) = (rs(&mut rng), rs(&mut rng));
+    let mut pkb: Vec<u8> = Vec::new();
+    pkb.extend((k0 * g).compress().as_bytes());
+    pkb.extend(2u64.to_le_bytes());
+    pkb.push(3);
+    pkb.extend((ts3 * g).compress().as_bytes());
+    pkb.push(4);
+    pkb.extend((ts4 * g).compress().as_bytes());
+    let pk = match ServerPublicKey::load_from_bincode(&pkb) {
+      Ok(p) => p,
+      Err(_) => continue,
+    };
+    let md = 4u8;
+    let k = k0 + ts4;
+    let pkv = k * g;
+    let (req, _r) = Client::blind(format!("forge {i}").as_bytes());
+    let p = match CompressedRistretto::from_slice(req.as_bytes()).ok().and_then(|c| c.decompress()) {
+      Some(p) => p,
+      None => continue,
+    };
+    let mk = |c: Scalar, s: Scalar, out: &RP| -> Option<Evaluation> {
+      let mut pb = c.to_bytes().to_vec();
+      pb.extend(s.to_bytes());
+      Some(Evaluation { output: Point::from(&out.compress().to_bytes()[..]), proof: Some(ProofDLEQ::load_from_bincode(&pb).ok()?) })
+    };
+    // positive controls: an HONEST statement proved through the mirrored transcript must verify.
+    // The mirror is tried with the full challenge and with each reduced variant: whichever variant
+    // makes honest proofs verify is the transcript the library actually uses.  (A reduced variant
+    // verifying is not yet a violation — the forgery for a FALSE statement below is.)
+    let w_true = k.invert() * p;
+    let (m, z) = composites(&pkv, &w_true, &p);
+    let mut variants_ok: Vec<&str> = Vec::new();
+    for vname in ["full", "without-t3", "without-t2", "without-commitments"] {
+      let r = rs(&mut rng);
+      let (t2, t3) = (r * g, r * m);
+      let c = match vname {
+        "full" => challenge(&[&pkv, &m, &z, &t2, &t3]),
+        "without-t3" => challenge(&[&pkv, &m, &z, &t2]),
+        "without-t2" => challenge(&[&pkv, &m, &z, &t3]),
+        _ => challenge(&[&pkv, &m, &z]),
+      };
+      let ev = mk(c, r - c * k, &w_true);
+      rep.evaluations += 1;
+      if ev.as_ref().map(|e| matches!(guard(|| Client::verify(&pk, &req, e, md)), Guard::Done(true))).unwrap_or(false) {
+        variants_ok.push(vname);
+      }
+    }
+    if variants_ok.is_empty() {
+      rep.count("positive_control_failed", 1);
+      continue; // the mirror of the transcript is out of date: the forgeries below would be vacuous
+    }
+    control_ok += 1;
+    for v in &variants_ok {
+      rep.count(&format!("library_transcript_matches:{v}"), 1);
+    }
+    // false statements
+    let k_other = k0 + ts3; // the key of the OTHER registered tag
+    let outs: Vec<(&str, RP)> = vec![
+      ("evaluation-under-other-tag", k_other.invert() * p),
+      ("random-point", rs(&mut rng) * g),
+      ("request-point-itself", p),
+    ];
+    for (wname, w) in outs {
+      let (m, z) = composites(&pkv, &w, &p);
+      let mut attempts: Vec<(&str, Option<Evaluation>)> = Vec::new();
+      // (A) the second commitment t3 = r*M is not bound: a Schnorr signature by the committed key suffices
+      let r = rs(&mut rng);
+      let t2 = r * g;
+      let c = challenge(&[&pkv, &m, &z, &t2]);
+      attempts.push(("challenge-without-t3", mk(c, r - c * k, &w)));
+      // (B) the first commitment t2 = r*G is not bound: knowledge of log_M(Z) suffices, whatever pk is
+      if wname == "evaluation-under-other-tag" {
+        let r = rs(&mut rng);
+        let t3 = r * m;
+        let c = challenge(&[&pkv, &m, &z, &t3]);
+        attempts.push(("challenge-without-t2", mk(c, r - c * k_other, &w)));
+      }
+      // (C) no commitment bound at all
+      let c = challenge(&[&pkv, &m, &z]);
+      attempts.push(("challenge-without-commitments", mk(c, rs(&mut rng), &w)));
+      // (D) full transcript, response computed for the committed key (must fail: the statement is false)
+      let r = rs(&mut rng);
+      let (t2, t3) = (r * g, r * m);
+      let c = challenge(&[&pkv, &m, &z, &t2, &t3]);
+      attempts.push(("full-transcript-false-statement", mk(c, r - c * k, &w)));
+      // (E) composites not bound to the points: proof of the TRUE statement re-used for the false output
+      let (m0, z0) = composites(&pkv, &w_true, &p);
+      let r = rs(&mut rng);
+      let c = challenge(&[&pkv, &m0, &z0, &(r * g), &(r * m0)]);
+      attempts.push(("proof-of-true-statement-with-false-output", mk(c, r - c * k, &w)));
+      for (aname, ev) in attempts {
+        let ev = match ev {
+          Some(e) => e,
+          None => continue,
+        };
+        rep.evaluations += 1;
+        rep.nontrivial(format!("{i}:{wname}:{aname}"));
+        if matches!(guard(|| Client::verify(&pk, &req, &ev, md)), Guard::Done(true)) {
+          rep.violation("C13", "Client::verify", &format!("forged-proof-accepted:{aname}"),
+            format!("a proof forged by a malicious server for a false statement (output = {wname}) verifies; forgery strategy: {aname}"),
+            json!({"output": wname, "strategy": aname, "case": i}));
+        }
+      }
+    }
+  }
+  rep.count("positive_controls_ok", control_ok);
+  rep.sample(json!({"false_outputs": ["evaluation-under-other-tag", "random-point", "request-point-itself"],
+    "strategies": ["challenge-without-t3", "challenge-without-t2", "challenge-without-commitments", "full-transcript-false-statement", "proof-of-true-statement-with-false-output"],
+    "positive_controls_ok": control_ok}));
+  rep.traces = 1;
+  rep
+}
